@@ -97,7 +97,7 @@ def check(an: Analysis) -> None:
         if w is not None:
             ob.fail(call, s_.ast, "the cached instance can be replaced after it was created (note: the instance is falsy - a truthiness test does not detect it)", CFG.show_path(w))
     owners = {cls.qualname} | ({meta.qualname} if meta is not None else set())
-    for fi in prog.functions.values():
+    for fi in prog.scan_functions():
         if fi is call:
             continue
         for n in fi.own_nodes():
